@@ -73,13 +73,15 @@ Lemma scan_value_quoted_semi n r :
   scan_value (QUOTE :: n ++ QUOTE :: SEMI :: r) = (QUOTE :: n ++ [QUOTE], Some r).
 Proof.
   intros H. unfold scan_value. rewrite N.eqb_refl.
-  rewrite (split_once_app QUOTE n (SEMI :: r) H). now rewrite N.eqb_refl.
+  rewrite (split_once_app QUOTE n (SEMI :: r) H). cbv iota beta. now rewrite N.eqb_refl.
 Qed.
 
-(* ---- strip('"') ---- *)
-Lemma lstrip_lacks c s x :
-  lacks c (x :: s) -> lstrip_set (fun y => N.eqb y c) (x :: s) = x :: s.
-Proof. intros H. apply lacks_cons in H. destruct H as [Hx _]. simpl. now rewrite Hx. Qed.
+(* ---- strip(Q), Q the double quote ---- *)
+Lemma lstrip_lacks c s : lacks c s -> lstrip_set (fun y => N.eqb y c) s = s.
+Proof.
+  destruct s as [|x s]; intros H; [reflexivity|].
+  apply lacks_cons in H. destruct H as [Hx _]. simpl. now rewrite Hx.
+Qed.
 
 Lemma lacks_rev c s : lacks c s -> lacks c (rev s).
 Proof.
@@ -88,17 +90,139 @@ Proof.
   apply lacks_cons. split; [exact Hx | apply lacks_nil].
 Qed.
 
+Lemma rstrip_lacks_snoc c s :
+  lacks c s -> rstrip_set (fun y => N.eqb y c) (s ++ [c]) = s.
+Proof.
+  intros H. unfold rstrip_set. rewrite rev_unit. simpl. rewrite N.eqb_refl.
+  rewrite (lstrip_lacks c (rev s) (lacks_rev c s H)). apply rev_involutive.
+Qed.
+
 Lemma strip_quotes_quoted n : lacks QUOTE n -> strip_quotes (QUOTE :: n ++ [QUOTE]) = n.
 Proof.
-  intros H. unfold strip_quotes, strip_set, rstrip_set.
-  destruct n as [|x n].
+  intros H. unfold strip_quotes, strip_set.
+  assert (E : lstrip_set (fun c => N.eqb c QUOTE) (QUOTE :: n ++ [QUOTE])
+              = lstrip_set (fun c => N.eqb c QUOTE) (n ++ [QUOTE])) by reflexivity.
+  rewrite E. destruct n as [|x n].
   - reflexivity.
-  - change (lstrip_set (fun c => N.eqb c QUOTE) (QUOTE :: (x :: n) ++ [QUOTE]))
-      with (lstrip_set (fun c => N.eqb c QUOTE) ((x :: n) ++ [QUOTE])).
-    simpl app. rewrite (lstrip_lacks QUOTE (n ++ [QUOTE]) x).
-    2:{ apply lacks_cons in H. destruct H as [Hx Hn]. apply lacks_cons. split; [exact Hx|].
-        (* the tail may contain the final quote: lstrip only looks at the head *)
-        unfold lacks. unfold lacks in Hn. (* not needed: lstrip_lacks only uses the head *)
-        admit_placeholder. }
-    admit_placeholder.
+  - assert (Hx : N.eqb x QUOTE = false) by (apply lacks_cons in H; tauto).
+    change ((x :: n) ++ [QUOTE]) with (x :: (n ++ [QUOTE])).
+    cbn [lstrip_set]. rewrite Hx.
+    change (x :: (n ++ [QUOTE])) with ((x :: n) ++ [QUOTE]).
+    now apply rstrip_lacks_snoc.
+Qed.
+
+(* ------------------------------------------------------------------ *)
+(* the header lines a browser sends *)
+Definition s_form_data : str := [102;111;114;109;45;100;97;116;97].
+Definition cd_prefix : str :=       (* Content-Disposition: form-data; name=Q *)
+  [67;111;110;116;101;110;116;45;68;105;115;112;111;115;105;116;105;111;110;58;32;102;111;114;109;45;100;97;116;97;59;32;110;97;109;101;61;34].
+Definition fn_infix : str := [34;59;32;102;105;108;101;110;97;109;101;61;34].    (* Q; filename=Q *)
+Definition ct_prefix : str := [67;111;110;116;101;110;116;45;84;121;112;101;58;32].   (* Content-Type:SP *)
+
+Definition cd_line (name : str) : str := cd_prefix ++ name ++ [QUOTE].
+Definition cd_line_file (name fn : str) : str := cd_prefix ++ name ++ fn_infix ++ fn ++ [QUOTE].
+Definition ct_line (ct : str) : str := ct_prefix ++ ct.
+
+Definition SP : N := 32.
+
+Lemma opt_matches_name f n :
+  lacks QUOTE n ->
+  opt_matches (S (S f)) (SP :: s_form_data ++ SEMI :: SP :: s_name ++ EQ :: QUOTE :: n ++ [QUOTE])
+  = [(SP :: s_form_data, None); (SP :: s_name, Some (QUOTE :: n ++ [QUOTE]))].
+Proof.
+  intros H. cbn [opt_matches].
+  rewrite (scan_key_semi s_form_data) by reflexivity.
+  rewrite (scan_key_eq s_name) by reflexivity.
+  now rewrite (scan_value_quoted_end n H).
+Qed.
+
+Lemma opt_matches_name_file f n fn :
+  lacks QUOTE n -> lacks QUOTE fn ->
+  opt_matches (S (S (S f)))
+    (SP :: s_form_data ++ SEMI :: SP :: s_name ++ EQ :: QUOTE :: n ++ QUOTE :: SEMI :: SP :: s_filename ++ EQ :: QUOTE :: fn ++ [QUOTE])
+  = [(SP :: s_form_data, None); (SP :: s_name, Some (QUOTE :: n ++ [QUOTE]));
+     (SP :: s_filename, Some (QUOTE :: fn ++ [QUOTE]))].
+Proof.
+  intros H H'. cbn [opt_matches].
+  rewrite (scan_key_semi s_form_data) by reflexivity.
+  rewrite (scan_key_eq s_name) by reflexivity.
+  rewrite (scan_value_quoted_semi n _ H).
+  rewrite (scan_key_eq s_filename) by reflexivity.
+  now rewrite (scan_value_quoted_end fn H').
+Qed.
+
+Lemma strip_sp_lit : strip (SP :: s_form_data) = s_form_data /\ strip (SP :: s_name) = s_name
+                     /\ strip (SP :: s_filename) = s_filename.
+Proof. repeat split; reflexivity. Qed.
+
+Lemma parse_header_cd n :
+  lacks QUOTE n ->
+  parse_header (cd_line n)
+  = Some (mkHeader s_content_disposition s_form_data [(s_name, Some n)]).
+Proof.
+  intros H. unfold parse_header.
+  change (cd_line n) with
+    (s_content_disposition ++ COLON :: SP :: s_form_data ++ SEMI :: SP :: s_name ++ EQ :: QUOTE :: n ++ [QUOTE]).
+  rewrite split_once_app by reflexivity.
+  unfold finditer_opts. cbn [length app s_form_data].
+  rewrite (opt_matches_name _ n H). cbn [map fst snd option_map].
+  rewrite (strip_quotes_quoted n H). reflexivity.
+Qed.
+
+Lemma parse_header_cd_file n fn :
+  lacks QUOTE n -> lacks QUOTE fn ->
+  parse_header (cd_line_file n fn)
+  = Some (mkHeader s_content_disposition s_form_data [(s_name, Some n); (s_filename, Some fn)]).
+Proof.
+  intros H H'. unfold parse_header.
+  change (cd_line_file n fn) with
+    (s_content_disposition ++ COLON :: SP :: s_form_data ++ SEMI :: SP :: s_name ++ EQ :: QUOTE :: n
+       ++ QUOTE :: SEMI :: SP :: s_filename ++ EQ :: QUOTE :: fn ++ [QUOTE]).
+  rewrite split_once_app by reflexivity.
+  unfold finditer_opts. cbn [length app s_form_data].
+  rewrite (opt_matches_name_file _ n fn H H'). cbn [map fst snd option_map].
+  rewrite (strip_quotes_quoted n H), (strip_quotes_quoted fn H'). reflexivity.
+Qed.
+
+(* a plain content type: no parameter separator, no '=', no surrounding white space *)
+Definition ctype_ok (ct : str) : Prop := lacks SEMI ct /\ lacks EQ ct /\ strip ct = ct.
+
+Lemma parse_header_ct ct :
+  ctype_ok ct -> parse_header (ct_line ct) = Some (mkHeader s_content_type ct []).
+Proof.
+  intros (Hs & He & Hstrip). unfold parse_header.
+  change (ct_line ct) with (s_content_type ++ COLON :: SP :: ct).
+  rewrite split_once_app by reflexivity.
+  unfold finditer_opts. cbn [length opt_matches].
+  rewrite (scan_key_end ct Hs He). cbn [map].
+  change (strip (SP :: ct)) with (strip ct). now rewrite Hstrip.
+Qed.
+
+(* ------------------------------------------------------------------ *)
+(* splitlines on CRLF-joined lines free of line breaks *)
+Definition no_linebreak (s : str) : Prop := forallb (fun c => negb (is_linebreak c)) s = true.
+
+Lemma no_linebreak_cons c s : no_linebreak (c :: s) <-> is_linebreak c = false /\ no_linebreak s.
+Proof. unfold no_linebreak; simpl. rewrite andb_true_iff, negb_true_iff. tauto. Qed.
+
+Lemma no_linebreak_app a b : no_linebreak (a ++ b) <-> no_linebreak a /\ no_linebreak b.
+Proof. unfold no_linebreak. rewrite forallb_app, andb_true_iff. tauto. Qed.
+
+Lemma splitlines_line_crlf l r :
+  no_linebreak l -> splitlines (l ++ 13 :: 10 :: r) = l :: splitlines r.
+Proof.
+  induction l as [|c l IH]; intros H.
+  - reflexivity.
+  - apply no_linebreak_cons in H. destruct H as [Hc Hl].
+    change ((c :: l) ++ 13 :: 10 :: r) with (c :: (l ++ 13 :: 10 :: r)).
+    cbn [splitlines]. rewrite Hc, (IH Hl). reflexivity.
+Qed.
+
+Lemma splitlines_single l : no_linebreak l -> l <> [] -> splitlines l = [l].
+Proof.
+  induction l as [|c l IH]; intros H Hne; [congruence|].
+  apply no_linebreak_cons in H. destruct H as [Hc Hl].
+  cbn [splitlines]. rewrite Hc. destruct l as [|d l].
+  - reflexivity.
+  - rewrite IH by (auto; discriminate). reflexivity.
 Qed.
